@@ -42,7 +42,7 @@ def write_replay(prop, payload):
     d = VERIF / "replays"
     d.mkdir(exist_ok=True)
     p = d / f"{prop}_{int(time.time())}_{os.getpid()}.json"
-    p.write_text(json.dumps(payload, indent=1, default=str) + "\n")
+    p.write_text(json.dumps(evidence._clean(json.loads(json.dumps(payload, default=str))), indent=1) + "\n")
     return p
 
 
